@@ -1,7 +1,7 @@
 (* C17 — workflow results do not depend on worker or schedule (partial: the model covers the two
    scheduling loops, every oracle and every max_concurrent; real pool timing and cloudpickle
    transport of jobs are runtime behaviour covered by the correspondence run only). *)
-From Pydra Require Import Base.Prelude Base.SchedBase Model.Sched Spec.Sched Proofs.SchedH Proofs.SchedI.
+From Pydra Require Import Base.Prelude Base.SchedBase Model.Sched Spec.Sched Proofs.SchedH Proofs.SchedI Proofs.SchedK Proofs.SchedL.
 
 (* job values are an uninterpreted function `body` of (node, index, values read from the results of
    the predecessor nodes' jobs when the node is started) *)
@@ -25,6 +25,27 @@ Proof.
   - apply sync_outputs; auto.
 Qed.
 Print Assumptions C17_confluence.
+
+(* Termination included: every node has at least one job and every max_concurrent is >= 1; then for
+   EVERY pair of oracles the runs end by themselves within |jobs| + 1 iterations and agree. *)
+Theorem C17_confluence_total :
+  forall (V : Type) (body : nat -> nat -> list (list (option V)) -> V) (vr : variant) (g : graph)
+         (k1 k2 k3 : option nat) (o1 o2 : list oracle_step) (f1 f2 f3 : nat),
+    fix14 vr = true -> wf_graph g -> (forall nd, In nd g -> 1 <= njobs nd) ->
+    (forall k, k1 = Some k -> 1 <= k) -> (forall k, k2 = Some k -> 1 <= k) -> (forall k, k3 = Some k -> 1 <= k) ->
+    List.length (all_jobs g) + 1 <= f1 -> List.length (all_jobs g) + 1 <= f2 -> List.length (all_jobs g) + 1 <= f3 ->
+    let nofail := fun _ : job => false in
+    node_outputs g (run_async V body nofail vr g k1 o1 f1) = reference_outputs V body g
+    /\ node_outputs g (run_async V body nofail vr g k2 o2 f2) = reference_outputs V body g
+    /\ node_outputs g (run_sync V body nofail vr g k3 f3) = reference_outputs V body g.
+Proof.
+  intros V body vr g k1 k2 k3 o1 o2 f1 f2 f3 F WF NJ K1 K2 K3 B1 B2 B3 nofail.
+  apply C17_confluence; auto.
+  - apply async_terminates; auto.
+  - apply async_terminates; auto.
+  - apply sync_terminates; auto.
+Qed.
+Print Assumptions C17_confluence_total.
 
 (* the reference semantics satisfies its defining equation: the value of job (n, i) is `body`
    applied to the reference values of every job of every predecessor node *)
